@@ -58,6 +58,9 @@ type DeferredCarWriter struct {
 	// streamErr is set when writing the CAR header to outStream failed: the stream may hold part
 	// of a header, so nothing more must be written to it.
 	streamErr error
+	// fileErr is set when writing the CAR header to the file at outPath failed and no later Put
+	// has started the file over: the file may hold part of a header, and Close reports it.
+	fileErr error
 }
 
 // NewDeferredCarWriterForPath creates a DeferredCarWriter that will write to a
@@ -163,10 +166,16 @@ func (dcw *DeferredCarWriter) writer() (carstorage.WritableCar, error) {
 		if err != nil {
 			if dcw.outStream != nil {
 				dcw.streamErr = err
+			} else {
+				// do not keep the file open: a later Put starts it over (and truncates it)
+				dcw.f.Close()
+				dcw.f = nil
+				dcw.fileErr = err
 			}
 			return nil, err
 		}
 		dcw.w = w
+		dcw.fileErr = nil
 	}
 	return dcw.w, nil
 }
@@ -185,6 +194,8 @@ func (dcw *DeferredCarWriter) Close() (err error) {
 		err = dcw.w.Finalize()
 	} else if dcw.streamErr != nil {
 		err = dcw.streamErr
+	} else if dcw.fileErr != nil {
+		err = dcw.fileErr
 	}
 
 	if dcw.f != nil {
